@@ -19,7 +19,7 @@ PLAN = [
 class Reactor(tops.Component):
     name = "reactor"
     model = "reactor"
-    with_model = False     # until the Lean acceptor covers the run (set per property)
+    with_model = True
     poller = "pkg/netpoll/poller_epoll_default.go"
     hook_wait = "hook:unix.EpollWait"
     hook_ctl = "hookctl:unix.EpollCtl"
@@ -66,3 +66,15 @@ class ReactorOpt(Reactor):
     hook_wait = "hook:epollWait"
     hook_ctl = "hookctl:epollCtl"
     suffix = "-opt"
+
+
+def components(kinds, quick=120, thorough=3000):
+    """reactor components (default and poll_opt builds) for the given scenario kinds"""
+    out = []
+    for k in kinds:
+        for base in (Reactor, ReactorOpt):
+            cls = type("%s_%s" % (base.__name__, k), (base,), {"kind": k, "ncases": (quick, thorough)})
+            c = cls()
+            c.gen_label = k
+            out.append(c)
+    return out
